@@ -143,6 +143,17 @@ func (r *Rec) Sample(v interface{}) {
 	r.mu.Unlock()
 }
 
+// LabelCounts returns how often each violation label was raised so far (suppressed repeats included).
+func (r *Rec) LabelCounts() map[string]int {
+	r.mu.Lock()
+	defer r.mu.Unlock()
+	out := make(map[string]int, len(r.labels))
+	for k, v := range r.labels {
+		out[k] = v
+	}
+	return out
+}
+
 func (r *Rec) NViolations() int { r.mu.Lock(); defer r.mu.Unlock(); return len(r.s.Violations) }
 
 // Violate records a violation under a narrow label. At most 3 witnesses per
